@@ -45,6 +45,16 @@ func VerifDistribution() {
 	rt.Reach("built")
 	if info.Distribution != nil {
 		rt.Reach("with-map")
+		if rt.Param("PERSIST") == 1 {
+			// the map as it is restored from the persisted fraction info (info block / .frac-cache)
+			seq.VerifResetDistStore()
+			raw, err := info.Distribution.MarshalJSON()
+			rt.Assert(err == nil, "the map is persisted")
+			restored := &seq.MIDsDistribution{}
+			rt.Assert(restored.UnmarshalJSON(raw) == nil, "the map is restored")
+			info.Distribution = restored
+			rt.Reach("restored")
+		}
 	}
 	from, to := seq.MID(vInstant(0, rt.Param("WBITS"))), seq.MID(vInstant(0, rt.Param("WBITS")))
 	hit := false
